@@ -14,8 +14,7 @@
    the constructors of both languages hold every declared value of the `simple` fields (bool, string, integer
    and float scalars, constants, lists of strings, with a default free of json.Number), at any position of
    any struct, and therefore agree on them; a scalar default that fits its field arrives unaltered from each of
-   the three formats (JSON Schema: since the fix that unwraps json.Number in walkNumber; list elements are still
-   json.Number there). *)
+   the three formats (JSON Schema: since the fixes that unwrap json.Number in walkNumber and walkList). *)
 From Coq Require Import List String ZArith Bool.
 From Cog Require Import Model.IR Model.Json Model.GoSemBase Model.GoSemDecode Model.Ctor Model.PySem Model.CtorSpec
   Model.Passes Model.PassesChain Model.Process Gen.Chains_gen Proofs.CtorProofs.
@@ -102,15 +101,6 @@ Theorem default_not_altered_lists_refuted_go : forall fmt numtext m e a,
   exists w, assign (TArray a (TScalar attrs0 KInt64 DNil [])) (format_scalar (fe_value fmt numtext (JArr [JNum m e]))) = CNoCompile w.
 Proof. exact CtorProofs.go_list_of_numbers_does_not_compile. Qed.
 Print Assumptions default_not_altered_lists_refuted_go.
-
-(* BEGIN jsonschema-list-elements *)
-(* refuted for LIST defaults in JSON Schema: the elements stay json.Number, printed as quoted strings: Python holds
-   strings *)
-Theorem default_not_altered_jsonschema_lists_refuted : forall numtext m e,
-  py_lit_json (fe_value "jsonschema" numtext (JArr [JNum m e])) = POk (JArr [JStr (numtext m e)]).
-Proof. exact CtorProofs.default_altered_jsonschema_list_numbers. Qed.
-Print Assumptions default_not_altered_jsonschema_lists_refuted.
-(* END jsonschema-list-elements *)
 
 (* dropped before any jenny runs *)
 Theorem defaults_dropped_by_front_ends : forall numtext j,
